@@ -212,6 +212,21 @@ func testOpts(t *TestSpec) []z.TestOption {
 	return o
 }
 
+// addUserTest attaches a user test.  Two documented routes build the same test: schema.TestFunc(fn, opts...)
+// and a reusable z.TestFunc(...) value, copied, given its options afterwards and added with schema.Test(t).
+func addUserTest(t *TestSpec, fn z.BoolTFunc, o []z.TestOption, viaTestFunc func(z.BoolTFunc, ...z.TestOption), viaTest func(z.Test)) {
+	if t.ID%3 != 0 {
+		viaTestFunc(fn, o...)
+		return
+	}
+	base := z.TestFunc("", fn) // the reusable test ...
+	variant := base            // ... a copy of it ...
+	for _, opt := range o {
+		opt(&variant) // ... which gets its own code / path / params / message
+	}
+	viaTest(variant)
+}
+
 // EvalPred evaluates a user predicate on a (dereferenced) destination value.
 func EvalPred(p *Pred, v reflect.Value) bool {
 	switch p.Op {
@@ -378,7 +393,7 @@ func buildStringT[T ~string](rec *Recorder, n *Node, s *z.StringSchema[T]) *z.St
 		t := &n.Tests[i]
 		o := testOpts(t)
 		if t.Builtin == "" {
-			s.TestFunc(userTest(rec, t, "test"), o...)
+			addUserTest(t, userTest(rec, t, "test"), o, func(f z.BoolTFunc, os ...z.TestOption) { s.TestFunc(f, os...) }, func(tv z.Test) { s.Test(tv) })
 			continue
 		}
 		var ns z.NotStringSchema[T]
@@ -533,7 +548,7 @@ func buildNumber[T number](rec *Recorder, n *Node, s *z.NumberSchema[T], conv fu
 		o := testOpts(t)
 		switch t.Builtin {
 		case "":
-			s.TestFunc(userTest(rec, t, "test"), o...)
+			addUserTest(t, userTest(rec, t, "test"), o, func(f z.BoolTFunc, os ...z.TestOption) { s.TestFunc(f, os...) }, func(tv z.Test) { s.Test(tv) })
 		case "gt":
 			s.GT(conv(t), o...)
 		case "gte":
@@ -612,7 +627,7 @@ func Build(rec *Recorder, n *Node, validate bool) z.ZogSchema {
 			t := &n.Tests[i]
 			switch t.Builtin {
 			case "":
-				s.TestFunc(userTest(rec, t, "test"), testOpts(t)...)
+				addUserTest(t, userTest(rec, t, "test"), testOpts(t), func(f z.BoolTFunc, os ...z.TestOption) { s.TestFunc(f, os...) }, func(tv z.Test) { s.Test(tv) })
 			case "true":
 				s.True()
 			case "false":
@@ -650,7 +665,7 @@ func Build(rec *Recorder, n *Node, validate bool) z.ZogSchema {
 			o := testOpts(t)
 			switch t.Builtin {
 			case "":
-				s.TestFunc(userTest(rec, t, "test"), o...)
+				addUserTest(t, userTest(rec, t, "test"), o, func(f z.BoolTFunc, os ...z.TestOption) { s.TestFunc(f, os...) }, func(tv z.Test) { s.Test(tv) })
 			case "after":
 				s.After(t.T, o...)
 			case "before":
@@ -673,7 +688,7 @@ func Build(rec *Recorder, n *Node, validate bool) z.ZogSchema {
 		s := z.Struct(sc)
 		for i := range n.Tests {
 			t := &n.Tests[i]
-			s.TestFunc(userTest(rec, t, "test"), testOpts(t)...)
+			addUserTest(t, userTest(rec, t, "test"), testOpts(t), func(f z.BoolTFunc, os ...z.TestOption) { s.TestFunc(f, os...) }, func(tv z.Test) { s.Test(tv) })
 		}
 		for _, pt := range n.PTs {
 			s.PostTransform(mkPT(rec, pt))
@@ -703,7 +718,7 @@ func Build(rec *Recorder, n *Node, validate bool) z.ZogSchema {
 			o := testOpts(t)
 			switch t.Builtin {
 			case "":
-				s.TestFunc(userTest(rec, t, "test"), o...)
+				addUserTest(t, userTest(rec, t, "test"), o, func(f z.BoolTFunc, os ...z.TestOption) { s.TestFunc(f, os...) }, func(tv z.Test) { s.Test(tv) })
 			case "min":
 				s.Min(int(t.N), o...)
 			case "max":
